@@ -76,6 +76,8 @@ func listDomain(maxLen, maxAlias int) *domain {
 				out = append(out, Op{K: "append", T: T, V: v}, Op{K: "remove", T: T, V: v},
 					Op{K: "in", T: T, V: v}, Op{K: "index", T: T, V: v}, Op{K: "count", T: T, V: v})
 			}
+			// a needle of another numeric type than the element it equals
+			out = append(out, Op{K: "remove", T: T, V: `2.0`}, Op{K: "in", T: T, V: `2.0`}, Op{K: "index", T: T, V: `2.0`}, Op{K: "count", T: T, V: `2.0`})
 			out = append(out, Op{K: "extendlit", T: T, V: `[2, "a"]`}, Op{K: "extendlit", T: T, V: `[]`}, Op{K: "extend", T: T, U: T})
 			if otherOK {
 				out = append(out, Op{K: "extend", T: T, U: U})
